@@ -2182,3 +2182,237 @@ def r06_17(ctx):
         else:
             ctx.bad(f"ndiscoption::Repr::{v}|padding-unwritten", f"ndiscoption::Repr::emit writes the {v} option's address but not the padding behind it: with an 8-octet IEEE 802.15.4 address "
                     "the option is 16 octets long and its last 6 octets keep the previous buffer content (they are covered by the ICMPv6 checksum and go out on the wire)", body=em)
+
+
+@rule('R05.12', ['C05', 'C04', 'C01'], floor=1, clause='the TCP option loop of the segment parser ends only at the end of the option area, at an end-of-list option or on a malformed option: an option of unknown kind is skipped, so MSS / window scale / SACK-permitted / timestamps placed behind it are still honoured')
+def r05_12(ctx):
+    from ..loops import loops
+    from ..wirelib import ok_sites
+    F = ctx.F
+    b = ctx.method('wire::tcp::Repr', 'parse')
+    ls = loops(b)
+    ctx.need(ls, "the option loop of tcp::Repr::parse")
+    h, nodes, srcs = max(ls, key=lambda x: len(x[1]))
+    oks = set(ok_sites(b))
+    eol = set()
+    for (bi, tb, lab) in guard_edges(F, b, lambda f: f[0] == 'is' and f[2] == 'EndOfList'):
+        eol |= set(b.reachable(start=tb))
+    n = 0
+    for u in sorted(nodes):
+        for v, lab in b.succ_edges(u):
+            if v in nodes or b.blocks[v]['cl']:
+                continue
+            if b.blocks[v]['t'][0] == 'unreachable':
+                continue
+            n += 1
+            efacts = [f for tb, lb, f in cond_facts(F, b, u) if tb == v and lb == lab] if b.blocks[u]['t'][0] == 'switch' else []
+            if u == h or u in eol or any(f[0] == 'is' and f[2] == 'EndOfList' for f in efacts):
+                ctx.ok(('tcp::Repr::parse', 'loop exit', u, v), sample=dict(exit='end of options / end-of-list'))
+                continue
+            # the loop test may sit a few blocks behind the header (`while !options.is_empty()`)
+            t = b.blocks[u]['t']
+            facts = [f for tb, lb, f in cond_facts(F, b, u)] if t[0] == 'switch' else []
+            if any((f[0] == 'bool' and is_call(strip(f[1]), '::is_empty')) or (f[0] == 'rel' and any(strip(x)[0] == 'len' or is_call(strip(x), '::len') for x in (f[2], f[3]))) for f in facts):
+                ctx.ok(('tcp::Repr::parse', 'loop exit', u), sample=dict(exit='option area exhausted'))
+                continue
+            if not (oks & set(b.reachable(start=v))):
+                ctx.ok(('tcp::Repr::parse', 'loop exit', u), sample=dict(exit='malformed option -> Err'))
+                continue
+            ctx.bad("tcp::Repr::parse|option-loop-left-early", "the option loop of tcp::Repr::parse can be left for an option that is neither the end-of-list nor malformed (an unknown kind): "
+                    "every option behind it - MSS, window scale, SACK-permitted, timestamps - is ignored, so e.g. the default MSS 536 is used against a peer that announced less", body=b, bb=u)
+    ctx.need(n >= 1, "exits of the option loop")
+
+
+@rule('R06.18', ['C06', 'C18'], floor=8, clause='DHCPv4: every optional field that emit turns into an option is counted by buffer_len() under a test of that same field (the two lists of options agree field by field)')
+def r06_18(ctx):
+    F = ctx.F
+    R = 'wire::dhcpv4::Repr'
+    em, bl_ = ctx.method(R, 'emit'), ctx.method(R, 'buffer_len')
+
+    def tested(b):
+        out = {}
+        fam = [b] + list(F.closures_of(b.key))
+        for bb in fam:
+            for bi, blk in enumerate(bb.blocks):
+                if blk['cl'] or blk['t'][0] != 'switch':
+                    continue
+                seen_here = set()
+                for tb, lab, f in cond_facts(F, bb, bi):
+                    subj = None
+                    if f[0] in ('is', 'isnot') and f[3] == 'std::option::Option':
+                        subj = f[1]
+                    elif f[0] == 'bool' and is_call(strip(f[1]), '::is_some', '::is_none'):
+                        subj = strip(f[1])[2][0]
+                    if subj is None:
+                        continue
+                    for l in leafs(subj):
+                        if l.startswith(f"F:{R}."):
+                            seen_here.add(l.rsplit('.', 1)[-1])
+                for fld in seen_here:
+                    out[fld] = out.get(fld, 0) + 1
+        return out
+    te, tb_ = tested(em), tested(bl_)
+    ctx.need(len(te) >= 8 and len(tb_) >= 8, f"optional fields tested by dhcpv4 emit / buffer_len (found {len(te)} / {len(tb_)})")
+    for fld in sorted(set(te) | set(tb_)):
+        if fld in te and fld not in tb_:
+            ctx.bad(f"dhcpv4::Repr|{fld}|not-counted", f"dhcpv4::Repr::emit writes an option for `{fld}` but buffer_len() never tests that field: the declared length is short by the "
+                    "option (emit fails or overruns) or, if another field is tested twice instead, too long (trailing bytes keep the previous buffer content)", body=bl_)
+        elif fld in tb_ and fld not in te:
+            ctx.bad(f"dhcpv4::Repr|{fld}|counted-not-emitted", f"dhcpv4::Repr::buffer_len() counts an option for `{fld}` that emit never writes", body=em)
+        elif tb_[fld] != te[fld] and fld not in ('dns_servers',):
+            ctx.bad(f"dhcpv4::Repr|{fld}|counted-{tb_[fld]}-times", f"dhcpv4::Repr::buffer_len() tests `{fld}` {tb_[fld]} time(s) while emit tests it {te[fld]} time(s): an option is "
+                    "counted under the wrong field", body=bl_)
+        else:
+            ctx.ok(('dhcpv4', fld), sample=dict(field=fld, counted_and_emitted=True))
+
+
+@rule('R05.11', ['C05', 'C02'], floor=1, clause='the zero-window-probe timer exists only while the peer window is closed: once process() has seen a non-zero window with that timer running, every continuation replaces it (idle or retransmission timer), so no 1-octet probe is forced into a window that is open')
+def r05_11(ctx):
+    F = ctx.F
+    SOCK = 'socket::tcp::Socket'
+    TM = 'socket::tcp::Timer'
+    b = ctx.method(SOCK, 'process')
+    izw = ctx.method(TM, 'is_zero_window_probe')
+    repl = {x[0] for x in b.calls() if (b.callee_name(x[1]) or '') in {ctx.method(TM, m).key for m in ('set_for_idle', 'set_for_retransmit', 'set_for_close')}}
+    edges = guard_edges(F, b, p_call(lambda n: n == izw.key, True))
+    ctx.need(edges, "test of timer.is_zero_window_probe() in tcp::Socket::process")
+    rets = set(b.return_blocks())
+    for (bi, tb, lab) in edges:
+        seen = set(b.reachable(start=tb, cut_blocks=repl))
+        if rets & seen:
+            ctx.bad("process|zwp-kept-with-open-window", "process() can return with the zero-window-probe timer still armed although the peer window is open (the timer is replaced only on "
+                    "some continuations): when it fires, dispatch forces a 1-octet segment beyond what the open - but smaller than the flight - window allows", body=b, bb=bi)
+        else:
+            ctx.ok(('process', 'zwp replaced', bi), sample=dict(fn='process', when='window reopened with the probe timer armed', timer='idle or retransmit'))
+
+
+@rule('R03.13', ['C03', 'C16'], floor=2, clause='synchronising the SLAAC state removes only IPv6 routes it installed itself: the retain() over the route table keeps every entry that is not an IPv6 route via an IPv6 router')
+def r03_13(ctx):
+    F = ctx.F
+    cands = [b for k, b in F.bodies.items() if k.endswith('::sync_slaac_state') and '::test' not in k]
+    if not cands:
+        ctx.ok(('no slaac in this configuration',))
+        return
+    b = cands[0]
+    fam = [b] + list(F.closures_of(b.key))
+    for c in list(fam):
+        fam += [y for y in F.closures_of(c.key) if y not in fam]
+    n = 0
+    for bb in fam:
+        for x in bb.calls():
+            nm = bb.callee_name(x[1]) or (x[1].get('fn') if isinstance(x[1], dict) else '') or ''
+            if nm.rsplit('::', 1)[-1] != 'retain' or len(x[2]) != 2:
+                continue
+            o = strip(F.origin.operand(bb, x[2][1], x[0], len(bb.blocks[x[0]]['s'])))
+            if o[0] != 'agg' or not str(o[1]).startswith('closure:'):
+                continue
+            cb = F.bodies.get(str(o[1])[len('closure:'):])
+            if cb is None:
+                continue
+            n += 1
+            v6 = lambda f: f[0] == 'is' and f[2] == 'Ipv6' and f[3] in ('wire::ip::Cidr', 'wire::ip::Address')
+            drops = []
+            for bi, bl in enumerate(cb.blocks):
+                if bl['cl']:
+                    continue
+                for si, s in enumerate(bl['s']):
+                    if s[0] == 'a' and s[1] == [0, []]:
+                        if not (s[2][0] == 'use' and s[2][1][0] == 'k' and s[2][1][2] is True):
+                            drops.append(bi)
+                if bl['t'][0] == 'call' and bl['t'][3] == [0, []]:
+                    drops.append(bi)
+            bad = unguarded(F, cb, drops, v6) if drops else []
+            if bad:
+                ctx.bad("sync_slaac_state|retain-drops-foreign-routes", "the retain() in sync_slaac_state can drop a route that is not an IPv6 route via an IPv6 router: after a router "
+                        "advertisement the statically configured IPv4 default route disappears and every reply to an off-link IPv4 peer is dropped for good", body=cb, bb=bad[0][0])
+            else:
+                ctx.ok(('sync_slaac_state', 'retain keeps foreign routes', n), sample=dict(fn='sync_slaac_state', drops='only (Ipv6 cidr, Ipv6 router) entries'))
+    ctx.need(n >= 1, "retain() over the route table in sync_slaac_state")
+
+
+@rule('R20.6', ['C20', 'C10'], floor=2, clause='6LoWPAN: the size of the later fragments is computed from the 125-octet frame limit minus the MAC header minus the FRAGN header (the 5-octet one, not the 4-octet FRAG1 header), and the ICMPv6 emitter on the 6LoWPAN egress is handed a view of exactly the message length (its checksum covers the view)')
+def r20_6(ctx):
+    F = ctx.F
+    ws = [w for w in F.field_writes() if w['field'] == 'fragn_size' and w['kind'] == 'store' and 'dispatch_sixlowpan' in w['fn'] and '::test' not in w['fn']]
+    ctx.need(ws, "store to SixlowpanFragmenter.fragn_size in dispatch_sixlowpan")
+    for w in ws:
+        b = F.body(w['fn'])
+        o = simplify(store_origin(F, b, w))
+        hdrs = []
+
+        def walk(n):
+            if not isinstance(n, tuple) or not n:
+                return
+            if n[0] == 'call' and n[1].endswith('sixlowpan::frag::Repr::buffer_len') and n[2]:
+                a = strip(n[2][0])
+                while a[0] in ('ref', 'deref') and len(a) == 2:
+                    a = strip(a[1])
+                hdrs.append(a[1].rsplit('::', 1)[-1] if a[0] == 'agg' else '?')
+            for c in n[1:]:
+                if isinstance(c, tuple):
+                    if c and isinstance(c[0], str):
+                        walk(c)
+                    else:
+                        for d in c:
+                            walk(d)
+        walk(o)
+        has125 = any(const_of(x) == 125 for x in _consts(o))
+        if hdrs == ['Fragment'] and has125:
+            ctx.ok(('fragn_size', 'FRAGN header'), sample=dict(fragn_size='(125 - mac header - FRAGN header) / 8 * 8'))
+        else:
+            ctx.bad("dispatch_sixlowpan|fragn_size|wrong-header", f"dispatch_sixlowpan computes the size of the later fragments from the header(s) {hdrs or '?'} (expected the FRAGN header) "
+                    "and 125: with the 4-octet FRAG1 header the later frames come out one octet too long - 126 octets with short MAC addresses, beyond the IEEE 802.15.4 frame limit", body=b, bb=w['bb'])
+    cands = [b for k, b in F.bodies.items() if k.endswith('::ipv6_to_sixlowpan') and '::test' not in k]
+    ctx.need(cands, "ipv6_to_sixlowpan")
+    b = cands[0]
+    n = 0
+    for x in b.calls():
+        nm = b.callee_name(x[1]) or ''
+        if not nm.endswith('icmpv6::Repr::<\'a>::emit') and not (nm.startswith('wire::icmpv6::Repr') and nm.endswith('::emit')):
+            continue
+        n += 1
+        # the packet view argument: Icmpv6Packet::new_unchecked(<slice>)
+        bounded = False
+        for a in x[2]:
+            o = strip(F.origin.operand(b, a, x[0], len(b.blocks[x[0]]['s'])))
+            for sub in _calls_in(o):
+                if len(sub) > 2 and sub[1].rsplit('::', 1)[-1] in ('index_mut', 'index') and len(sub[2]) == 2:
+                    rb = range_bounds(F, sub[2][1])
+                    if rb and rb[0] in ('Range', 'RangeTo') and rb[2] is not None and any(l.endswith('::buffer_len') or l.endswith('.payload_len') for l in leafs(rb[2])):
+                        bounded = True
+        if bounded:
+            ctx.ok(('ipv6_to_sixlowpan', 'icmpv6 view exact', x[0]), sample=dict(fn='ipv6_to_sixlowpan', view='buffer[..message length]'))
+        else:
+            ctx.bad("ipv6_to_sixlowpan|icmpv6-view-unbounded", "ipv6_to_sixlowpan hands the ICMPv6 emitter a view that is not cut to the message length: on the fragmentation path the view is "
+                    "the whole fragmentation buffer, and the ICMPv6 checksum (which covers the view) is computed over stale bytes with the wrong pseudo-header length", body=b, bb=x[0])
+    ctx.need(n >= 1, "ICMPv6 emit calls in ipv6_to_sixlowpan")
+
+
+def _consts(n):
+    out = []
+    if isinstance(n, tuple) and n:
+        if n[0] == 'const':
+            out.append(n)
+        for c in n[1:]:
+            if isinstance(c, tuple):
+                if c and isinstance(c[0], str):
+                    out += _consts(c)
+                else:
+                    for d in c:
+                        out += _consts(d)
+    return out
+
+
+def _calls_in(n):
+    out = []
+    if isinstance(n, tuple) and n:
+        if n[0] == 'call':
+            out.append(n)
+        for c in n[1:]:
+            if isinstance(c, tuple):
+                if c and isinstance(c[0], str):
+                    out += _calls_in(c)
+                else:
+                    for d in c:
+                        out += _calls_in(d)
+    return out
